@@ -13,7 +13,7 @@ func init() {
 		Clauses:  trace.Clauses(trace.ClSeq, trace.ClOnce, trace.ClOrder, trace.ClPolicy, trace.ClError, trace.ClLate),
 		Gen:      trace.GenOpts{MinRules: 1, MaxRules: 10, FailProb: 0.25, RetProb: 0.3, WideSal: true},
 		Calls:    8,
-		PoolProb: 0.3,
+		PoolProb: 0.5,
 	}
 	fw.Families["C04"] = func(k *fw.Case) { trace.RunCase(k, c04) }
 
